@@ -16,6 +16,7 @@ import (
 	"github.com/inbucket/inbucket/v3/pkg/message"
 	"github.com/inbucket/inbucket/v3/pkg/storage"
 	"github.com/inbucket/inbucket/v3/pkg/stringutil"
+	"github.com/inbucket/inbucket/v3/pkg/verifhook"
 	"github.com/rs/zerolog/log"
 )
 
@@ -104,11 +105,13 @@ func (fs *Store) AddMessage(m storage.Message) (id string, err error) {
 	}
 
 	// Write the message content.
+	verifhook.Point("file.add.create", fm.rawPath())
 	file, err := os.Create(fm.rawPath())
 	if err != nil {
 		return "", err
 	}
 	w := bufio.NewWriter(file)
+	verifhook.Point("file.add.write", fm.rawPath())
 	size, err := io.Copy(w, r)
 	if err != nil {
 		// Try to remove the file.
@@ -117,12 +120,14 @@ func (fs *Store) AddMessage(m storage.Message) (id string, err error) {
 		return "", err
 	}
 	_ = r.Close()
+	verifhook.Point("file.add.flush", fm.rawPath())
 	if err := w.Flush(); err != nil {
 		// Try to remove the file.
 		_ = file.Close()
 		_ = os.Remove(fm.rawPath())
 		return "", err
 	}
+	verifhook.Point("file.add.close", fm.rawPath())
 	if err := file.Close(); err != nil {
 		// Try to remove the file.
 		_ = os.Remove(fm.rawPath())
@@ -217,6 +222,7 @@ func (fs *Store) PurgeMessages(mailbox string) error {
 // VisitMailboxes accepts a function that will be called with the messages in each mailbox while it
 // continues to return true.
 func (fs *Store) VisitMailboxes(f func([]storage.Message) (cont bool)) error {
+	verifhook.Point("file.visit.l1", "")
 	names1, err := readDirNames(fs.mailPath)
 	if err != nil {
 		return err
@@ -224,6 +230,7 @@ func (fs *Store) VisitMailboxes(f func([]storage.Message) (cont bool)) error {
 
 	// Loop over level 1 directories.
 	for _, name1 := range names1 {
+		verifhook.Point("file.visit.l2", name1)
 		names2, err := readDirNames(fs.mailPath, name1)
 		if os.IsNotExist(err) {
 			// Emptied and removed since we listed it.
@@ -235,6 +242,7 @@ func (fs *Store) VisitMailboxes(f func([]storage.Message) (cont bool)) error {
 
 		// Loop over level 2 directories.
 		for _, name2 := range names2 {
+			verifhook.Point("file.visit.l3", name2)
 			names3, err := readDirNames(fs.mailPath, name1, name2)
 			if os.IsNotExist(err) {
 				continue
@@ -245,6 +253,7 @@ func (fs *Store) VisitMailboxes(f func([]storage.Message) (cont bool)) error {
 
 			// Loop over mailboxes.
 			for _, name3 := range names3 {
+				verifhook.Point("file.visit.mbox", name3)
 				mb := fs.mboxFromHash(name3)
 				mb.RLock()
 				msgs, err := mb.getMessages()
